@@ -131,7 +131,8 @@ _bls("C03", ["Props.C03"],
      "sampled n in {8,9} (thorough 8,9,15,16,17,33); each index compared with the model's individual verdict AND with pks[i].Verify on the implementation; input errors all-false; internal randomness is crypto/rand",
      "Lean 4 proof (tree recursion = individual verdicts outside an explicit bad set of coefficient vectors) + differential run",
      "Theorem batch_eq_individual: for every n, split, inputs and non-zero coefficient vector outside the bad set (some contiguous segment with a defective entry sums to zero) the result equals index-wise Verify; "
-     "all-valid and single-defect batches are good for every vector; coefficients rand+1 < r are non-zero. The cardinality bound of the bad set ((n choose 2)+n segments, each <= 2^128^(n-1) vectors) is argued in DESIGN.md, not yet a theorem (partial).",
+     "all-valid and single-defect batches are good for every vector; coefficients rand+1 < r are non-zero. batch_agrees_outside_few: for every list of n keys and signatures (any mix of invalidity) the exceptional set has "
+     "at most (n+1)^2 * N^(n-1) of the N^n coefficient vectors (N = 2^128: a fraction <= (n+1)^2 / 2^128); outside it the result is index by index what Verify returns (a defective position pins its coefficient once the others are chosen; union over the segments).",
      "Lean kernel + correspondence; probability statement reduced to membership in an explicit bad set")
 _bls("C04", ["Props.C04"],
      "random multisets of 1..16 scalars with duplicates, additive inverses, small values, forced zero sums; permutations; nested aggregation; removal; aggregated signatures vs signature of aggregated key; "
